@@ -239,6 +239,17 @@ def run_ranking(case):
                 rec["out"] = "nothing-generated"
                 return rec
             r = rs[0]
+        elif case["src"] == "consensus":
+            from . import algorun
+            from corankco.scoringscheme import ScoringScheme
+            if "RAA" not in algorun._impl:
+                algorun.init()
+            B, T, unit = case["sch"]
+            ds = _impl["Dataset"].from_raw_list(nm.raw_dataset(case["D"]))
+            alg = algorun.build(case["cfg"], [], [], 0)
+            random.seed(case.get("seed", 0))
+            cons = alg.compute_consensus_rankings(ds, ScoringScheme(core.scheme_float(B, T, unit)), False)
+            r = cons.consensus_rankings[case.get("k", 0) % len(cons.consensus_rankings)]
         else:
             raise ValueError(case["src"])
         rec["obs"] = observe_ranking(r, nm)
